@@ -29,11 +29,117 @@ func vpat(d int, i int64) byte {
 }
 
 func runC19(c *harness.Ctx) {
-	if c.T.Draw("part", 2) == 0 {
+	switch c.T.Draw("part", 5) {
+	case 0, 1:
 		runRelay(c)
-	} else {
+	case 2:
+		runRelayTransient(c)
+	default:
 		runTermMon(c)
 	}
+}
+
+// runRelayTransient: one call of the relay on one of its two connections fails
+// with an error that calls itself temporary (a timeout), although the
+// connection would work again.  For the relay that side has ended with an
+// error: both connections are closed and copyLoop returns; whatever was
+// forwarded is an in-order prefix without holes.
+func runRelayTransient(c *harness.Ctx) {
+	t := c.T
+	c.Info["part"] = "relay-transient-error"
+	la := c.Net.NewLink("A", "relay")
+	lb := c.Net.NewLink("B", "relay")
+	for _, p := range []*simnet.Pipe{la.AB, la.BA, lb.AB, lb.BA} {
+		p.Policy = t.Draw("chunk", simnet.NumChunk)
+		p.MaxRead = []int{0, 0, 100, 4096}[t.Draw("maxread", 4)]
+		p.Latency = []time.Duration{0, 0, time.Millisecond}[t.Draw("lat", 3)]
+	}
+	total := []int64{5000, 70000, 200000}[t.Draw("total", 3)]
+	at := int64(t.Draw("at", int(total)))
+	// where the transient condition strikes: the relay's write towards B, or
+	// its read from A
+	kind := []string{simnet.FaultWriteTemp, simnet.FaultReadTemp}[t.Draw("kind", 2)]
+	if kind == simnet.FaultWriteTemp {
+		lb.BA.AddFault(simnet.Fault{Kind: kind, Offset: at})
+	} else {
+		la.AB.AddFault(simnet.Fault{Kind: kind, Offset: at})
+	}
+	reverse := t.Draw("reverse", 2) == 1 // B talks to A as well
+	c.Info["fault"], c.Info["at"], c.Info["total"], c.Info["reverse_traffic"] = kind, at, total, reverse
+	produce := func(name string, conn *simnet.Conn, dir int, n int64) {
+		c.S.Go(name+"/producer", func() {
+			var off int64
+			for off < n {
+				k := int64(1 + t.Draw(name+".chunk", 9000))
+				if k > n-off {
+					k = n - off
+				}
+				buf := make([]byte, k)
+				for j := range buf {
+					buf[j] = vpat(dir, off+int64(j))
+				}
+				w, err := conn.Write(buf)
+				off += int64(w)
+				if err != nil {
+					return
+				}
+			}
+		})
+	}
+	got := map[string]*int64{"A": new(int64), "B": new(int64)}
+	consume := func(name string, conn *simnet.Conn, dir int) {
+		c.S.Go(name+"/consumer", func() {
+			buf := make([]byte, 8192)
+			for {
+				n, err := conn.Read(buf)
+				for j := 0; j < n; j++ {
+					if buf[j] != vpat(dir, *got[name]+int64(j)) {
+						c.Violate("C19/relay-altered-bytes", "%s received byte %d that the other side did not produce at that position (a %s struck at offset %d of the A->B stream)", name, *got[name]+int64(j), kind, at)
+						return
+					}
+				}
+				*got[name] += int64(n)
+				if err != nil {
+					return
+				}
+			}
+		})
+	}
+	produce("A", la.A, 0, total)
+	if reverse {
+		produce("B", lb.A, 1, total)
+	}
+	consume("A", la.A, 1)
+	consume("B", lb.A, 0)
+	returned := false
+	var firedAt, returnedAt time.Duration = -1, -1
+	c.S.Go("relay/copyLoop", func() {
+		copyLoop(la.B, lb.B)
+		returned, returnedAt = true, c.S.Now()
+	})
+	fired := func() bool { return c.S.Counters["fault."+kind] > 0 }
+	c.S.Run(func() bool {
+		if fired() && firedAt < 0 {
+			firedAt = c.S.Now()
+		}
+		return returned
+	}, 5*time.Minute)
+	c.Reached, c.Nontrivial = true, fired()
+	if c.S.Violated() {
+		return
+	}
+	if !fired() {
+		return // the stream was shorter than the offset: nothing to judge
+	}
+	c.Feature("relay-transient-" + kind)
+	if !returned {
+		c.Violate("C19/relay-never-returned", "a %s struck the relay at offset %d of the A->B stream (virtual time %v); five virtual minutes later copyLoop is still running (B received %d, A received %d)", kind, at, firedAt, *got["B"], *got["A"])
+		return
+	}
+	if !la.B.Closed() || !lb.B.Closed() {
+		c.Violate("C19/conn-left-open", "copyLoop returned after a %s with side a closed=%v, side b closed=%v", kind, la.B.Closed(), lb.B.Closed())
+	}
+	_ = returnedAt
 }
 
 // ---- relay ---------------------------------------------------------------------
